@@ -52,6 +52,47 @@ def impl_accepts(a: dict) -> dict:
         return out
 
 
+def np_spellings() -> list[str]:
+    """Every way numpy can name a dtype here: one-character typecodes (incl. 'q'/'Q' long long, 'l', 'i', 'g' ...), the
+    sized names, and each of them byte-swapped.  The dtype's category is decided by numpy's own dtype equality with the
+    canonical dtypes (I.dtok_of_entry) - nothing of dltype is involved in that classification."""
+    import numpy as np
+
+    names = [c for c in np.typecodes["All"] if c not in "OVMmSUa"] + ["U3", "S2", "M8[s]", "m8[s]"]
+    names += ["int8", "int16", "int32", "int64", "uint8", "uint16", "uint32", "uint64", "float16", "float32", "float64", "longdouble", "bool",
+              "intc", "uintc", "int_", "uint", "longlong", "ulonglong", "intp", "uintp", "short", "ushort", "byte", "ubyte", "half", "single",
+              "double", "csingle", "cdouble", "clongdouble"]
+    out = []
+    for n in names:
+        try:
+            np.dtype(n)
+        except TypeError:
+            continue
+        out.append(n)
+        out.append(n + "|swapped")
+    return list(dict.fromkeys(out))
+
+
+def impl_accepts_spelling(a: dict) -> dict:
+    import numpy as np
+
+    import dltype
+
+    name, _, sw = a["spelling"].partition("|")
+    d = np.dtype(name)
+    if sw:
+        d = d.newbyteorder()
+    x = np.zeros((2, 3), dtype=d)
+    tok = I.dtok_of_entry(x.dtype)
+    try:
+        getattr(dltype, a["cls"])("n m").check(x, "x")
+        return {"v": "accept", "array_dtype": tok, "dtype_str": x.dtype.str, "scalar_type": x.dtype.type.__name__}
+    except BaseException as e:  # noqa: BLE001
+        out = I.canon_exc(e)
+        out.update({"array_dtype": tok, "dtype_str": x.dtype.str, "scalar_type": x.dtype.type.__name__})
+        return out
+
+
 def run(tier: str, seed: int, rep: Report, model: Model) -> dict:
     tasks = []
     for cls in I.TENSOR_CLASSES:
@@ -87,4 +128,31 @@ def run(tier: str, seed: int, rep: Report, model: Model) -> dict:
             rep.violation({"what": "class accepts a dtype outside its documented category" if acc else "class rejects a dtype of its documented category", **rec})
         elif acc != (ans == "1"):
             rep.disagreement({"what": "model of `dtype in DTYPES` and implementation differ", **rec})
+    # the same dtype under every spelling numpy offers (typecodes, C names, byte order): the verdict follows the category
+    sp_tasks = [{"cls": cls, "spelling": sp} for cls in I.TENSOR_CLASSES for sp in np_spellings()]
+    rep.streams["numpy_dtype_spellings"] = len(sp_tasks)
+    worker = ImplWorker("harness.props.c04")
+    try:
+        sp_results = worker.call_many("impl_accepts_spelling", sp_tasks)
+    finally:
+        worker.close()
+    for t, res in zip(sp_tasks, sp_results):
+        if "__skipped__" in res:
+            continue
+        if "v" not in res or "array_dtype" not in res:
+            rep.violation({"what": "check did not finish", "class": t["cls"], "spelling": t["spelling"], "impl": res})
+            continue
+        tok = res["array_dtype"].split(":", 1)[1]
+        doc = documented(t["cls"], "np", tok)
+        acc = res["v"] == "accept"
+        rec = {"class": t["cls"], "library": "np", "spelling": t["spelling"], "dtype": tok, "documented": doc, "impl": res}
+        rep.case((t["cls"], "np-spelling", t["spelling"]), rec, nontrivial=t["cls"] != "TensorTypeBase")
+        rep.count(f"spelling:{'accept' if acc else res.get('kind', res['v'])}")
+        if not acc and not (res["v"] == "reject" and res.get("kind") == "Dtype"):
+            rep.violation({"what": "rejected with something other than the dtype error", **rec})
+        elif acc != doc and tok != "other":
+            rep.violation({"what": "a dtype of the documented category is " + ("rejected" if doc else "accepted outside it") + " under another numpy spelling of the same dtype", **rec})
+        elif acc != doc:
+            # a dtype numpy does not consider equal to any canonical one (e.g. byte-swapped): the model of `in DTYPES` says no
+            rep.disagreement({"what": "model of `dtype in DTYPES` (numpy dtype equality) and implementation differ", **rec})
     return {"tables": {c: I.class_dtoks(c) for c in I.TENSOR_CLASSES}}
